@@ -502,7 +502,9 @@ func buildRequest(st *Step) (*http.Request, string) {
 		}
 		fmt.Fprintf(&b, "%s: %s\r\n", h[0], h[1])
 	}
-	if st.Chunked && len(st.Body) > 0 {
+	if st.Chunked && (len(st.Body) > 0 || st.Kind == "empty-chunked") {
+		// (an EMPTY body can be framed chunked too: "0\r\n\r\n" - the request then
+		// has no announced length at all)
 		b.WriteString("Transfer-Encoding: chunked\r\n")
 	} else if len(st.Body) > 0 || st.Method == "PUT" || st.Method == "POST" || st.Method == "PROPPATCH" {
 		fmt.Fprintf(&b, "Content-Length: %d\r\n", len(st.Body))
@@ -567,7 +569,7 @@ func (ex *executor) serve(idx int, st *Step) *Exchange {
 	if g := ex.gate; g != nil {
 		g.FaultBody = body
 		req.Body = g
-	} else if len(st.Body) == 0 && bf == nil {
+	} else if len(st.Body) == 0 && bf == nil && st.Kind != "empty-chunked" {
 		req.Body = http.NoBody
 	} else {
 		req.Body = body
